@@ -1168,6 +1168,9 @@ class CallMixin:
             ji = f"({idx} {kq})"
             s_ok.assume(f"(forall (({kq} String)) (! (=> (dhas {r.t} {kq}) (and {rng(ji)} {at(passes, ji)} (= {kv(ji, 0)} {kq}) (= (dval {r.t} {kq}) {kv(ji, 1)}) "
                         f"(forall (({j2} Int)) (=> (and (< {ji} {j2}) (< {j2} (seq.len {sq})) {at(passes, j2)}) (not (= {kv(j2, 0)} {kq})))))) :pattern ((dval {r.t} {kq})) :pattern ((dhas {r.t} {kq}))))")
+            # every passing index produces a key of the result, and the producing index recorded for that key is not an earlier one
+            j3 = fresh_name("jl")
+            s_ok.assume(f"(forall (({j3} Int)) (! (=> (and {rng(j3)} {at(passes, j3)}) (and (dhas {r.t} {kv(j3, 0)}) (>= ({idx} {kv(j3, 0)}) {j3}))) :pattern ((seq.nth {sq} {j3}))))")
             self.trusted_used.add("dict comprehension: the result is a well-formed dict; key present iff produced by a passing index; value from the last such index (library semantics of dict construction)")
             self.def_groups[r.t] = set(s_ok.pc[def_mark:])
             out.append((s_ok, r))
